@@ -21,8 +21,16 @@ static RELAXED: std::sync::OnceLock<vcore::earley::Grammar> = std::sync::OnceLoc
 
 /// derivable from the oracle extended by the relaxations of open findings
 fn derivable_relaxed(ctx: &Ctx, text: &str) -> bool {
-  RELAXED.get_or_init(|| vcore::cddl_abnf::grammar_with(&|name| ctx.excl(name))).recognizes("cddl", text)
+  if RELAXED.get_or_init(|| vcore::cddl_abnf::grammar_with(&|name| ctx.excl(name))).recognizes("cddl", text) {
+    return true;
+  }
+  // C03-F12: unchecked escapes, only inside the raw type of a '<...>' head number
+  ctx.excl(vcore::cddl_abnf::UNCHECKED_ESCAPES.0)
+    && text.contains(".<")
+    && RELAXED2.get_or_init(|| vcore::cddl_abnf::grammar_with_unchecked_escapes(&|name| ctx.excl(name))).recognizes("cddl", text)
 }
+
+static RELAXED2: std::sync::OnceLock<vcore::earley::Grammar> = std::sync::OnceLock::new();
 
 /// under-acceptance that is recorded as an open finding: (exclusion name, predicate on the text)
 fn under_acceptance_excluded(ctx: &Ctx, text: &str, st: &mut Stats) -> bool {
